@@ -37,7 +37,9 @@ let () =
     (* N: the script the planners got is norm_script of the script as written (groupByNothing of the reader's entry point) *)
     Printf.printf "N %d %s\n" id (if norm_script script0 = script then "1" else "0");
     (* B: every WRef of the planner model's tree carries the query its alias is bound to in the statement's WITH list *)
-    Printf.printf "B %d %s\n" id (if model_wrefs_bound script ctx then "1" else "0");
+    (* the unfolded tree grows fast with the depth of the statement (every reference carries its query): a sample of the cases,
+       "-" = not checked *)
+    Printf.printf "B %d %s\n" id (if id mod 6 = 0 || id >= 3000000 then (if model_wrefs_bound script ctx then "1" else "0") else "-");
     (match tree with
      | Some t -> Printf.printf "T %d %s\n" id (match impl_text script ctx t with Some x -> hex_of_chars x | None -> "-")
      | None -> Printf.printf "T %d model\n" id);
